@@ -75,10 +75,22 @@ class SetEncoder(AbstractItemEncoder):
         namedTypes = value.componentType
         substrate = self.protoDict()
 
-        for idx, (key, subValue) in enumerate(value.items()):
-            if namedTypes and namedTypes[idx].isOptional and not value[idx].isValue:
-                continue
-            substrate[key] = encodeFun(subValue, **options)
+        if not namedTypes or value.typeId == univ.Choice.typeId:
+            for key, subValue in value.items():
+                substrate[key] = encodeFun(subValue, **options)
+            return substrate
+
+        for idx, namedType in enumerate(namedTypes.namedTypes):
+            # do not instantiate absent components of the value being encoded
+            subValue = value.getComponentByPosition(idx, instantiate=False)
+            if subValue is base.noValue:
+                if namedType.isOptional:
+                    continue
+                elif namedType.isDefaulted:
+                    subValue = namedType.asn1Object
+                else:
+                    subValue = value.getComponentByPosition(idx)
+            substrate[namedType.name] = encodeFun(subValue, **options)
         return substrate
 
 
